@@ -1,6 +1,6 @@
 """C13 Replacing an overloaded connection never abandons live requests (W-FULL, small-capacity knobs)."""
 from dsim import seams
-from props.common import gen_strategy, quiet_logging, Violations
+from props.common import gen_strategy, quiet_logging, Violations, line_offset
 from props.c12 import PoolRun
 from worlds.reqpath import base_plan, RETHROW
 
@@ -70,7 +70,19 @@ def gen_plan(rng, tier):
         # before the swap, and _replace between deciding and acting
         p['focus_stall'] = [rng.choice([['borrow_connection', '_replace'], ['borrow_connection', '_replace'], ['return_connection', '_replace'],
                                         'borrow_connection', '_replace']), rng.choice([0.1, 0.2, 0.3]), rng.choice([0.02, 0.05, 0.2])]
-        if rng.random() < 0.35:
+        if rng.random() < 0.3:
+            # the thread returning a request sits between "the connection is not closed" and "is it defunct or closed?" while
+            # _replace closes the drained old connection
+            p.pop('focus_stall', None)
+            p['deep_stalls'] = [['return_connection', line_offset('cassandra.pool', 'HostConnection.return_connection', 'is_defunct or ', 17),
+                                 rng.choice([0.1, 0.3]), rng.choice([3, 6, 12])],
+                                # (_replace needs the loop thread to open the new connection: it is parked once that is done, right
+                                # before it decides what to do with the old one)
+                                ['_replace', line_offset('cassandra.pool', 'HostConnection._replace', 'close_after = False', 40), rng.choice([0.2, 0.4]), 4]]
+            for r in p['requests']:
+                if r['role'] == 'live' and r['scripts'][0]['kind'] == 'ok':
+                    r['scripts'][0]['delay'] = round(rng.uniform(0.05, 0.5), 3)
+        elif rng.random() < 0.35:
             # one deep change point instead: the thread that reaches one given line of one of them sits there for a long while
             p['focus_stall'] = [rng.choice(['borrow_connection', 'return_connection', 'return_connection', '_replace']), 1.0, rng.choice([0.05, 0.2, 0.5]),
                                 rng.randrange(1, 45), rng.choice([1, 2, 4])]
